@@ -129,13 +129,14 @@ class EIG(BaseRoutine):
 
         swaps = []
         bidx = self.nz_counts
-        for ii in range(dae.n - self.nz_counts):
+        for ii in range(self.nz_counts):
             if ii in self.zstate_idx:
                 while (bidx in self.zstate_idx):
                     bidx += 1
                 cols[ii] = bidx
-                rows[bidx] = ii
+                cols[bidx] = ii
                 swaps.append((ii, bidx))
+                bidx += 1
 
         # swap the variable names
         for fr, bk in swaps:
@@ -152,7 +153,8 @@ class EIG(BaseRoutine):
         nfy = As_perm[:self.nz_counts, self.nz_counts:]
         ngx = As_perm[self.nz_counts:, :self.nz_counts]
         ngy = As_perm[self.nz_counts:, self.nz_counts:]
-        nTf = np.delete(self.system.dae.Tf, self.zstate_idx)
+        # `self.As` is already scaled by the inverse time constants
+        nTf = np.ones(self.nz_counts)
 
         return nfx, nfy, ngx, ngy, nTf
 
